@@ -345,6 +345,10 @@ func netTake(portID int) (tk taken, err error) {
 	if s.cur != nil && s.cur.Kind != "serve" {
 		s.cur.Kind = "serve"
 	}
+	if s.cur != nil {
+		// asking for the next datagram: the receive loop is done with the previous one
+		s.setTag(s.cur, 0, false)
+	}
 	for {
 		if p.closed {
 			return tk, net.ErrClosed
@@ -355,7 +359,7 @@ func netTake(portID int) (tk taken, err error) {
 			p.reads++
 			tk = taken{data: rawCopy(d.Bytes), srcIP: rawCopy(d.SrcIP), srcPort: d.SrcPort, srcZone: rawString(d.SrcZone), ifindex: d.IfIndex, dstIP: rawCopy(d.DstIP)}
 			if s.cur != nil {
-				s.cur.pendTag = d.ID
+				s.setTag(s.cur, d.ID, false)
 			}
 			s.Tracef("recv", s.cur.ID, "datagram=%d len=%d port=%d", d.ID, len(tk.data), portID)
 			return tk, nil
@@ -409,9 +413,6 @@ func (s *Sim) emit(c *Capture) {
 		c.Task = t.ID
 		c.Inc = t.Inc
 		c.Datagram = t.Tag
-		if c.Datagram == 0 {
-			c.Datagram = t.pendTag
-		}
 		t.Writes++
 		s.Tracef("send", t.ID, "datagram=%d len=%d l2=%v", c.Datagram, len(c.Bytes), c.L2)
 		s.outbox = append(s.outbox, c)
